@@ -7,7 +7,10 @@
  *   xmlhand <n>                      followed by n "D ..." lines: XML round trip (buffer and file) of that list
  *                                    strings may be written @<len>[:e] = generated string of that length (e: with &<>"')
  *   topo synthetic <description> | topo xml <path>
- *   topob [nofilter-io] synthetic <description> | topob [noio] xml <path>   B loaded on its own instead of dup(A)
+ *   topo [f<type>=<filter>]... synthetic|xml ...     type filters (numbers) applied after KEEP_ALL
+ *   topob [noio] [f<type>=<filter>]... synthetic <description> | xml <path>   B loaded on its own instead of dup(A)
+ *   b cut <depth> <idx> <kind 0..3> <k> / b cutmid <depth> <idx> <kind> <pos>   B only: hide the last k children / the
+ *                                    child at <pos> of one child list (normal, memory, I/O, Misc) from the tree walk
  *   a <edit...>                      edit applied to A (before B is duplicated from it)
  *   b <edit...>                      edit applied to B = dup(A)
  *   build                            diff_build(A,B), apply to a dup of A, rebuild, reverse, XML round trip
@@ -262,6 +265,36 @@ static hwloc_topology_diff_t parse_entry(char *line)
 /* hwloc_topology_diff_destroy frees strings only for NAME/INFO entries: entries
    of other types never own strings here */
 
+/* "f<type>=<filter>" tokens in front of a source specification */
+static char *apply_filters(hwloc_topology_t t, char *spec)
+{
+  int ty, fl, n;
+  while (sscanf(spec, "f%d=%d %n", &ty, &fl, &n) == 2) {
+    hwloc_topology_set_type_filter(t, (hwloc_obj_type_t)ty, (enum hwloc_type_filter_e)fl);
+    spec += n;
+  }
+  return spec;
+}
+
+/* pointer surgery on child lists (cut / cutmid), undone before the topology is destroyed */
+static struct { hwloc_obj_t *slot; hwloc_obj_t old; } undo[64];
+static unsigned nundo;
+static hwloc_obj_t *list_head(hwloc_obj_t o, unsigned kind)
+{
+  return kind == 0 ? &o->first_child : kind == 1 ? &o->memory_first_child : kind == 2 ? &o->io_first_child : &o->misc_first_child;
+}
+static int cut_list(hwloc_obj_t o, unsigned kind, unsigned keep, int one)
+{
+  hwloc_obj_t *slot = list_head(o, kind); unsigned n;
+  if (kind > 3 || nundo >= 64) return -1;
+  for (n = 0; n < keep; n++) { if (!*slot) return -1; slot = &(*slot)->next_sibling; }
+  if (!*slot) return -1;
+  undo[nundo].slot = slot; undo[nundo].old = *slot; nundo++;
+  *slot = one ? (*slot)->next_sibling : NULL;
+  return 0;
+}
+static void undo_cuts(void) { while (nundo) { nundo--; *undo[nundo].slot = undo[nundo].old; } }
+
 /* ---- edits ---- */
 static void set_str(char **p, char *v) { free(*p); *p = v; }
 
@@ -397,6 +430,14 @@ static int do_edit(hwloc_topology_t t, char *line)
     char *n = unhx(s1); hwloc_obj_t m = hwloc_topology_insert_misc_object(t, o, n); free(n); return m ? 0 : -1;
   }
   if (!strcmp(op, "osindex") && sscanf(line, "%u", &k) == 1) { o->os_index = k; return 0; }
+  if (!strcmp(op, "cut") && sscanf(line, "%u %llu", &k, &v) == 2) {
+    hwloc_obj_t c; unsigned len = 0;
+    if (k > 3) return -1;
+    for (c = *list_head(o, k); c; c = c->next_sibling) len++;
+    if (v < 1 || v > len) return -1;
+    return cut_list(o, k, len - (unsigned)v, 0);
+  }
+  if (!strcmp(op, "cutmid") && sscanf(line, "%u %llu", &k, &v) == 2) return cut_list(o, k, (unsigned)v, 1);
   if (!strcmp(op, "attrpoke") && sscanf(line, "%u %llu", &k, &v) == 2) {   /* one byte of the attribute union diff.c memcmp()s */
     if (k >= tattr_size(o)) return -1;
     ((unsigned char *)o->attr)[k] ^= (unsigned char)(v ? v : 1); return 0;
@@ -472,6 +513,11 @@ static void do_build(void)
   fflush(stdout);
   rc = hwloc_topology_diff_build(A, B, 0, &diff);
   printf("build %d %u\n", rc, diff_len(diff)); print_diff(diff); fflush(stdout);
+  { hwloc_topology_diff_t rd = NULL, e; int rrc, tc = 0;
+    rrc = hwloc_topology_diff_build(B, A, 0, &rd);
+    for (e = rd; e; e = e->generic.next) if (e->generic.type == HWLOC_TOPOLOGY_DIFF_TOO_COMPLEX) tc = 1;
+    printf("revbuild %d %u tc=%d\n", rrc, diff_len(rd), tc); fflush(stdout);
+    hwloc_topology_diff_destroy(rd); }
   if (rc == 0) {
     hwloc_topology_dup(&P, A);
     r2 = hwloc_topology_diff_apply(P, diff, 0);
@@ -583,8 +629,9 @@ static int run_case(FILE *in)
     else if (!strncmp(line, "topo ", 5)) {
       hwloc_topology_init(&A);
       hwloc_topology_set_all_types_filter(A, HWLOC_TYPE_FILTER_KEEP_ALL);
-      if (!strncmp(line + 5, "synthetic ", 10)) { if (hwloc_topology_set_synthetic(A, line + 15) < 0) { printf("topo error\n"); return 0; } }
-      else if (!strncmp(line + 5, "xml ", 4)) { if (hwloc_topology_set_xml(A, line + 9) < 0) { printf("topo error\n"); return 0; } }
+      { char *spec = apply_filters(A, line + 5);
+        if (!strncmp(spec, "synthetic ", 10)) { if (hwloc_topology_set_synthetic(A, spec + 10) < 0) { printf("topo error\n"); return 0; } }
+        else if (!strncmp(spec, "xml ", 4)) { if (hwloc_topology_set_xml(A, spec + 4) < 0) { printf("topo error\n"); return 0; } } }
       if (hwloc_topology_load(A) < 0) { printf("topo error\n"); return 0; }
     } else if (!A) { printf("notopo\n"); return 0; }
     else if (!strncmp(line, "topob ", 6)) {
@@ -594,6 +641,7 @@ static int run_case(FILE *in)
       hwloc_topology_init(&B);
       hwloc_topology_set_all_types_filter(B, HWLOC_TYPE_FILTER_KEEP_ALL);
       if (noio) hwloc_topology_set_io_types_filter(B, HWLOC_TYPE_FILTER_KEEP_NONE);
+      spec = apply_filters(B, spec);
       if (!strncmp(spec, "synthetic ", 10)) { if (hwloc_topology_set_synthetic(B, spec + 10) < 0) { printf("topo error\n"); return 0; } }
       else if (!strncmp(spec, "xml ", 4)) { if (hwloc_topology_set_xml(B, spec + 4) < 0) { printf("topo error\n"); return 0; } }
       if (hwloc_topology_load(B) < 0) { printf("topo error\n"); return 0; }
@@ -622,6 +670,7 @@ static int run_case(FILE *in)
     }
     fflush(stdout);
   }
+  undo_cuts();
   if (B) hwloc_topology_destroy(B);
   if (A) hwloc_topology_destroy(A);
   return 0;
